@@ -220,7 +220,12 @@ def make_history(ch, params):
         if not interesting:
             return []
         return [(f1.hx((wasm.encode(m_), repr(script_))), [])]
-    return m, script, {'nontrivial_fn': nt, 'ninst': 1, 'classes': cls}
+    meta = {'nontrivial_fn': nt, 'ninst': 1, 'classes': cls}
+    if len(m.datas) >= 2 and ch.below(4) == 0:
+        # the same memory behaviour is required when the data segments are kept outside the C source (external blob)
+        meta['w2c2_options'] = ('-d', 'gnu-ld')
+        cls['external_data_segments'] = 1
+    return m, script, meta
 
 
 @f1.maker('c05_bigmem')
